@@ -111,10 +111,11 @@ def print_sheet(r, rules):
 
 
 def host_tokens(x):
-    toks = [simple(":", ctx="sel"), ident("host", ctx="sel", wsmean="mustnot")]
+    sp = x.get("host_spelling", "host")  # pseudo-class names are ASCII case-insensitive
+    toks = [simple(":", ctx="sel"), ident(sp, ctx="sel", wsmean="mustnot")]
     c = x["combo"]
     if c == "func":
-        toks = [simple(":", ctx="sel"), func("host", ctx="sel", wsmean="mustnot"), delim(".", ctx="sel"), ident("a", ctx="sel", cls=True, wsmean="mustnot"), simple(")", ctx="sel")]
+        toks = [simple(":", ctx="sel"), func(sp, ctx="sel", wsmean="mustnot"), delim(".", ctx="sel"), ident("a", ctx="sel", cls=True, wsmean="mustnot"), simple(")", ctx="sel")]
     elif c == "class":
         toks += [delim(".", ctx="sel", wsmean="mustnot"), ident("a", ctx="sel", cls=True, wsmean="mustnot")]
     elif c == "descendant":
